@@ -312,6 +312,28 @@ pub fn check(cfg: &RunCfg, _findings: &Findings) -> Report {
     }
   }
   rep.stats.count("unknown-codes-enumerated", unknown_codes);
+  // foreign records of every type 0..=0x1f with every code 0..=23 (EV_SYN codes such as
+  // SYN_DROPPED included), before, between and after key events
+  let mut foreign_pairs = 0u64;
+  for t in 0u16..=0x1f {
+    for code in 0u16..24 {
+      if t == 1 {
+        continue;
+      }
+      for val in [0i32, 1] {
+        let c = C18Case { batch: vec![Event::Pressed(KeyCode::LEFTSHIFT), Event::Pressed(KeyCode::A), Event::Released(KeyCode::A)], foreign: vec![(0, t, code, val), (1, t, code, val), (3, t, code, val)] };
+        foreign_pairs += 1;
+        rep.stats.evaluations += 1;
+        rep.stats.nontrivial_case(hash64(&case_json(&c).to_string()));
+        if let Err(v) = run_guarded(|| run_case(&mem, &c, &known)) {
+          let path = write_replay("C18", &v, &case_json(&c));
+          rep.violations.push((v, path));
+          return rep;
+        }
+      }
+    }
+  }
+  rep.stats.count("foreign-type-code-pairs-enumerated", foreign_pairs);
   let all_ref = &all;
   let known_ref = &known;
   let (st, fail) = run_prop(
@@ -346,7 +368,7 @@ pub fn check(cfg: &RunCfg, _findings: &Findings) -> Report {
       for _ in 0..nf {
         let at = src.below(n + 1);
         let rec = match src.below(9) {
-          0 => (0u16, 0u16, 0i32),                                        // SYN_REPORT
+          0 => (0u16, src.pick(&[0u16, 0, 1, 2, 3, 4]), 0i32),               // SYN_REPORT, SYN_CONFIG, SYN_MT_REPORT, SYN_DROPPED
           1 => (4, 4, src.below(256) as i32),                             // EV_MSC / MSC_SCAN
           2 => (1, all_ref[src.below(all_ref.len())] as i32 as u16, 2),   // auto-repeat
           3 => (1, all_ref[src.below(all_ref.len())] as i32 as u16, src.pick(&[3, -1, i32::MAX, i32::MIN, 256])),
